@@ -123,6 +123,9 @@ def build_cases(tier, seed):
         step = 10
         for j, lo in enumerate(range(0, 320, step)):
             cases.append({"engine": "c14_sweep", "id": f"C14-denver-all{j}", "seed": seed * 1000 + 500 + j, "net": {"type": "denver"}, "all_pairs": [lo, lo + step]})
+    if tier == "thorough":
+        for j in range(16):
+            cases.append({"engine": "c14_sweep", "id": f"C14-manhattan{j}", "seed": seed * 1000 + 900 + j, "net": {"type": "manhattan"}, "n": 2500})
     return cases
 
 
